@@ -16,5 +16,8 @@ func TestVerif_C06(t *testing.T) {
 		out.emit(vpGenCase(rng, i, "c06"))
 	}
 	// level (ii): real session pairs, every flush through the socket fallback, lagging reader
-	vsRun(out, newVrand(uint64(venvInt("VERIF_SEED", 1))+0x51), venvInt("VERIF_N2", n/10), n, "c06s")
+	n2 := venvInt("VERIF_N2", n/10)
+	vsRun(out, newVrand(uint64(venvInt("VERIF_SEED", 1))+0x51), n2, n, "c06s")
+	// level (ii), mixed transport: socket-sized and shm-sized flushes of one stream while the receiver is busy
+	vsMixedRun(out, newVrand(uint64(venvInt("VERIF_SEED", 1))+0x6D), venvInt("VERIF_N3", (n2+3)/4), n+n2)
 }
